@@ -11,9 +11,10 @@ VARIABLES
   zeros,     \* history: consecutive RPM polls that read 0 since the request last changed
   ccv,       \* history: curve value of the latest cycle
   kc,        \* history: consecutive cycles with that same curve value (capped), 0 after a raise/error
-  prevReq    \* history: the request before the latest cycle
+  prevReq,   \* history: the request before the latest cycle
+  spin       \* history: consecutive RPM polls that read at least 2 RPM (the fan is turning)
 
-pvars == <<cvars, touched, zeros, ccv, kc, prevReq>>
+pvars == <<cvars, touched, zeros, ccv, kc, prevReq, spin>>
 
 IsCycleOk == out.ev = "Cycle" /\ ~out.err
 \* trace validation concatenates traces: a step into an "Init" state starts a new behaviour
@@ -96,6 +97,11 @@ C04_RateMonotone ==
                 => LET d == DirectOf(ccv) IN
                    /\ (last <= d => out'.req >= last /\ out'.req <= d)
                    /\ (last >= d - 1 => out'.req <= Max2(last, d) /\ out'.req >= d - 1))]_pvars
+\* a fan that has been reporting rotation for long enough is never treated as stalled: the steady
+\* value for curve 0 stays the fan's minimum (the average of window n exceeds 1 RPM after
+\* n*ln(2) polls of at least 2 RPM; StallBound polls are plenty)
+C04_NoRaiseWhileTurning ==
+  [][Reset \/ (spin > 12 * cfg.n + 2 => offset' = offset /\ (status = "Regulating" => status' = "Regulating"))]_pvars
 \* (iv) no wind-up: the PID integral stays bounded whatever the history (PWM*ms)
 C04_NoWindup == cfg.alg.t = "pid" => Abs(loop.integ) <= 4000000
 
@@ -111,10 +117,12 @@ C10_BoundedResponse ==
 \* history-variable bookkeeping, conjoined to every action (after the action itself)
 HCycle == /\ touched' = FALSE
           /\ zeros' = IF out'.err \/ out'.req # last THEN 0 ELSE zeros
+          /\ spin' = spin
 HRpm(r) == /\ touched' = touched
            /\ zeros' = IF r = 0 THEN zeros + 1 ELSE 0
+           /\ spin' = IF r >= 2 THEN spin + 1 ELSE 0
 HPoke(p) == /\ touched' = (touched \/ p # pwm)
-            /\ zeros' = zeros
+            /\ zeros' = zeros /\ spin' = spin
 
 \* C04 history; H4Cycle after the action itself, H4Keep for every other action
 H4Cycle == /\ ccv' = out'.cv
